@@ -593,6 +593,26 @@ theorem header_structure (cubic : Bool) (ls : List Bytes) (hls : ∀ l ∈ ls, 1
         | some (w, h) => readMaxval st w h (magic.length + 1 + (joinLines ls).length + sz.length + 1) rest :=
   scan_structured cubic ls hls sz rest h10 c t hsz hc
 
+/-- **every canonical file of every admissible size** (the seeded 32-bit length overflow as a theorem): for every even
+    width in [2, 2^31), every odd height in [3, 2^31), every data section and every length below 2^64, the file
+    `P5 / # Offset -108 / # Scale 0.003 / w h / 65535 / data` is accepted exactly when its length is `header + 2·w·h` in
+    unbounded arithmetic — then with the announced width, height, offset −108, scale 0.003 and `datastart` = header
+    length — and with any other length the exception is "File has the wrong length" -/
+theorem canonical_file_accept_iff (cubic : Bool) (w h : Nat) (hw2 : 2 ≤ w) (hwe : w % 2 = 0) (hwm : w < 2 ^ 31)
+    (hh3 : 3 ≤ h) (hho : h % 2 = 1) (hhm : h < 2 ^ 31) (data : Bytes) (len : Nat) (hlen : len < 2 ^ 64) :
+    (len = canonHeaderLen w h + 2 * w * h →
+      parse cubic (canonFile w h data) len = .ok
+        { offset := F64.fin true 108 0, scale := F64.fin false 6917529027641082 (-61), maxerror := HState.init.maxerror,
+          rmserror := HState.init.rmserror, description := HState.init.description, datetime := HState.init.datetime,
+          w := w, h := h, datastart := canonHeaderLen w h }) ∧
+    (len ≠ canonHeaderLen w h + 2 * w * h → parse cubic (canonFile w h data) len = .error .wrongLength) :=
+  canonical_file cubic w h hw2 hwe hwm hh3 hho hhm data len hlen
+
+example : canonFile 2 3 [] = str "P5\n# Offset -108\n# Scale 0.003\n2 3\n65535\n" ∧ canonHeaderLen 2 3 = 41 := by
+  constructor
+  · simp [canonFile, joinLines, dec]; decide
+  · simp [canonHeaderLen, dec]
+
 theorem last_occurrence_counts (cubic : Bool) (ls : List Bytes) (st st' : HState) (h : ls.foldlM (procLine cubic) st = .ok st') :
     st'.offset = ((ls.filterMap offsetOf).getLast?).getD st.offset ∧ st'.scale = ((ls.filterMap scaleOf).getLast?).getD st.scale :=
   fold_offset_scale_last cubic ls st st' h
